@@ -81,14 +81,14 @@ example : classify ⟨[], []⟩ "h".toList ⟨"2\t1\t100017.000000\tms\ttotal\tB
 tails of earlier crashes), everything a session writes afterwards — its block, the metadata
 records of runs not yet in the file, its data points — loads without error, and the loader
 hands over exactly the session's data points, each once, each made of its own lines only. -/
-theorem c09_load_total (st : LState) (empty : Bool) (ds : List WDP) :
-    ∃ st', loadFrom Variant.repaired st (sessionRecs empty st.tables ds) = .ok st'
+theorem c09_load_total (st : LState) (glued empty : Bool) (ds : List WDP) :
+    ∃ st', loadFrom Variant.repaired st (sessionRecs glued empty st.tables ds) = .ok st'
       ∧ st'.loaded = st.loaded ++ ds.map WDP.toDP := by
   cases ds with
   | nil => exact ⟨st, rfl, by simp⟩
   | cons d ds =>
     simp only [sessionRecs]
-    rw [loadFrom_append_ok (load_block _ st empty)]
+    rw [loadFrom_append_ok (load_block _ st glued empty)]
     have hc : Clean (atComment Variant.repaired st).cur := by
       simp [atComment, Variant.repaired]; exact clean_none
     obtain ⟨st', h, _, hl, _⟩ := load_emitAll Variant.repaired (d :: ds) (atComment Variant.repaired st) hc
@@ -96,7 +96,7 @@ theorem c09_load_total (st : LState) (empty : Bool) (ds : List WDP) :
     exact ⟨st', h, by rw [hl, atComment_loaded]⟩
 
 example : ∃ st', loadFrom Variant.repaired LState.init
-    (sessionRecs true LState.init.tables
+    (sessionRecs false true LState.init.tables
       [⟨0, 0, 1, 1, [("mem".toList, "7".toList)], "3".toList⟩, ⟨0, 0, 1, 2, [], "4".toList⟩]) = .ok st'
     ∧ st'.loaded.length = 2 := ⟨_, rfl, by decide⟩
 
@@ -109,16 +109,17 @@ theorem c09_torn_tolerated (st : LState) (r : Rec) (h : Torn r) :
 /-- `load_after_any_prefix`, first part (loadable): an old file that loads, any session on top of
 it cut after any number `k` of records with any torn tail behind the cut, then two further
 sessions writing arbitrary data points: every one of the three loads ends normally, and the
-two later sessions' data points are handed over exactly once each, unmixed. -/
-theorem c09_load_after_any_prefix (st : LState) (empty : Bool) (ds ds2 ds3 : List WDP) (k : Nat)
+two later sessions' data points are handed over exactly once each, unmixed.  (`g1 g2 g3`: whether
+the session's `#!` line was glued to a torn tail without newline and is therefore not a record.) -/
+theorem c09_load_after_any_prefix (st : LState) (g1 g2 g3 empty : Bool) (ds ds2 ds3 : List WDP) (k : Nat)
     (torn : List Rec) (htorn : ∀ r ∈ torn, Torn r) :
-    ∃ st1, loadFrom Variant.repaired st ((sessionRecs empty st.tables ds).take k ++ torn) = .ok st1 ∧
-    ∃ st2, loadFrom Variant.repaired st1 (sessionRecs false st1.tables ds2) = .ok st2
+    ∃ st1, loadFrom Variant.repaired st ((sessionRecs g1 empty st.tables ds).take k ++ torn) = .ok st1 ∧
+    ∃ st2, loadFrom Variant.repaired st1 (sessionRecs g2 false st1.tables ds2) = .ok st2
       ∧ st2.loaded = st1.loaded ++ ds2.map WDP.toDP ∧
-    ∃ st3, loadFrom Variant.repaired st2 (sessionRecs false st2.tables ds3) = .ok st3
+    ∃ st3, loadFrom Variant.repaired st2 (sessionRecs g3 false st2.tables ds3) = .ok st3
       ∧ st3.loaded = st2.loaded ++ ds3.map WDP.toDP := by
-  obtain ⟨stF, hF, _⟩ := c09_load_total st empty ds
-  rw [← List.take_append_drop k (sessionRecs empty st.tables ds)] at hF
+  obtain ⟨stF, hF, _⟩ := c09_load_total st g1 empty ds
+  rw [← List.take_append_drop k (sessionRecs g1 empty st.tables ds)] at hF
   obtain ⟨stA, hA, _⟩ := loadFrom_prefix_ok hF
   have htl : ∀ (torn : List Rec) (s : LState), (∀ r ∈ torn, Torn r) →
       ∃ s', loadFrom Variant.repaired s torn = .ok s' := by
@@ -132,19 +133,19 @@ theorem c09_load_after_any_prefix (st : LState) (empty : Bool) (ds ds2 ds3 : Lis
       exact ⟨s2, by simp only [loadFrom, h1]; exact h2⟩
   obtain ⟨st1, h1⟩ := htl torn stA htorn
   refine ⟨st1, by rw [loadFrom_append_ok hA]; exact h1, ?_⟩
-  obtain ⟨st2, h2, hl2⟩ := c09_load_total st1 false ds2
+  obtain ⟨st2, h2, hl2⟩ := c09_load_total st1 g2 false ds2
   refine ⟨st2, h2, hl2, ?_⟩
-  exact c09_load_total st2 false ds3
+  exact c09_load_total st2 g3 false ds3
 
 /-- `load_after_any_prefix`, second part (counted exactly once, unmixed): if the cut falls after
 the data points `ds1` and strictly inside what `persist_data_point` writes for `d` (its metadata
 records and lines, `j` of them), with any torn tail, then exactly `ds1` is handed over from the
 interrupted session: every completely written data point once, for its run, with its own lines,
 and nothing of the torn one. -/
-theorem c09_crash_counts_complete_only (st : LState) (empty : Bool) (ds1 : List WDP) (d : WDP) (j : Nat)
+theorem c09_crash_counts_complete_only (st : LState) (glued empty : Bool) (ds1 : List WDP) (d : WDP) (j : Nat)
     (hj : j < (emitDP (ensureAll st.tables ds1) d).length) (torn : List Rec) (htorn : ∀ r ∈ torn, Torn r) :
     ∃ st1, loadFrom Variant.repaired st
-        (blockRecs empty ++ emitAll st.tables ds1 ++ (emitDP (ensureAll st.tables ds1) d).take j ++ torn) = .ok st1
+        (blockRecs glued empty ++ emitAll st.tables ds1 ++ (emitDP (ensureAll st.tables ds1) d).take j ++ torn) = .ok st1
       ∧ st1.loaded = st.loaded ++ ds1.map WDP.toDP := by
   have hc : Clean (atComment Variant.repaired st).cur := by
     simp [atComment, Variant.repaired]; exact clean_none
@@ -192,7 +193,7 @@ theorem c09_crash_counts_complete_only (st : LState) (empty : Bool) (ds1 : List 
       exact ⟨s2, by simp only [loadFrom, h1]; exact h2, by rw [hl2, hl1]⟩
   obtain ⟨st1, h1, hl1⟩ := htl torn stC htorn
   refine ⟨st1, ?_, by rw [hl1, hlC, hlA]⟩
-  rw [List.append_assoc, List.append_assoc, loadFrom_append_ok (load_block _ st empty),
+  rw [List.append_assoc, List.append_assoc, loadFrom_append_ok (load_block _ st glued empty),
     loadFrom_append_ok hA, loadFrom_append_ok hC]
   exact h1
 
@@ -254,17 +255,17 @@ theorem c09_unterminated_repaired :
 
 /-- the full statement is false of the pinned loader -/
 theorem c09_load_after_any_prefix_pinned_full_fails :
-    ¬ (∀ (st : LState) (empty : Bool) (ds : List WDP) (k : Nat) (torn : List Rec), (∀ r ∈ torn, Torn r) →
-        ∃ st1, loadFrom Variant.pinned st ((sessionRecs empty st.tables ds).take k ++ torn) = .ok st1) := by
+    ¬ (∀ (st : LState) (glued empty : Bool) (ds : List WDP) (k : Nat) (torn : List Rec), (∀ r ∈ torn, Torn r) →
+        ∃ st1, loadFrom Variant.pinned st ((sessionRecs glued empty st.tables ds).take k ++ torn) = .ok st1) := by
   intro h
-  obtain ⟨st1, h1⟩ := h LState.init true [⟨0, 0, 1, 1, [], "3".toList⟩] 6 [.metaErr .value]
+  obtain ⟨st1, h1⟩ := h LState.init false true [⟨0, 0, 1, 1, [], "3".toList⟩] 6 [.metaErr .value]
     (by intro r hr; simp only [List.mem_singleton] at hr; subst hr; right; right; left; rfl)
   have hno : ∀ s, loadFrom Variant.pinned LState.init
-      (List.take 6 (sessionRecs true LState.init.tables [⟨0, 0, 1, 1, [], "3".toList⟩]) ++ [Rec.metaErr Exc.value])
+      (List.take 6 (sessionRecs false true LState.init.tables [⟨0, 0, 1, 1, [], "3".toList⟩]) ++ [Rec.metaErr Exc.value])
       ≠ .ok s := by
     intro s hs
     have : loadFrom Variant.pinned LState.init
-      (List.take 6 (sessionRecs true LState.init.tables [⟨0, 0, 1, 1, [], "3".toList⟩]) ++ [Rec.metaErr Exc.value])
+      (List.take 6 (sessionRecs false true LState.init.tables [⟨0, 0, 1, 1, [], "3".toList⟩]) ++ [Rec.metaErr Exc.value])
       = .error (.crash .value) := by decide
     rw [this] at hs; cases hs
   exact hno st1 h1
@@ -275,7 +276,7 @@ private def val0 : Nat → Nat → Nat → Text := fun _ _ _ => "1".toList
 
 /-- the data points the loader has for invocation `i` of run `r` after the resumed session -/
 def afterResume (st : LState) (cfg : List RunCfg) (val : Nat → Nat → Nat → Text) : Except End LState :=
-  loadFrom Variant.repaired st (sessionRecs false st.tables (resumeDPs val st.loaded cfg))
+  loadFrom Variant.repaired st (sessionRecs false false st.tables (resumeDPs val st.loaded cfg))
 
 /-- `invocation_counted_early` (witness; holds for the repaired loader as well — known finding):
 an invocation produces two data points, the session dies between the two flushes. The first data
@@ -310,7 +311,7 @@ theorem c09_resume_complete_partial (st : LState) (cfg : List RunCfg) (val : Nat
     (h : afterResume st cfg val = .ok st') :
     ∀ c ∈ cfg, ∀ i, 1 ≤ i → i ≤ c.invocations → countInv st'.loaded c.run i = c.iterations := by
   intro c hc i h1 h2
-  obtain ⟨st2, hl, hlo⟩ := c09_load_total st false (resumeDPs val st.loaded cfg)
+  obtain ⟨st2, hl, hlo⟩ := c09_load_total st false false (resumeDPs val st.loaded cfg)
   unfold afterResume at h
   rw [hl] at h; cases h
   rw [hlo, countInv_append, countInv_map_toDP, cnt_resume val st.loaded i cfg hdist c hc]
